@@ -192,7 +192,7 @@ def scenario(e, cfg, built=None):
             d.check(show_progressbar=False, hash_checksums_values=expected_desc)  # (a) accepts
         except Exception as exc:  # noqa: BLE001
             e.fail(f"check() rejects the untouched committed dataset ({cfg}): {type(exc).__name__}: {str(exc)[:80]}",
-                   dict(kind="rejects-committed-dataset"))
+                   dict(cfg=dict(cfg), kind="rejects-committed-dataset"))
         shards, lists = reachable_files(d)
         targets = [("shard", s) for s in shards] + [("list", l) for l in lists] + [("description", "dataset_info.json")]
         ftype, rel = targets[e.choice("file", len(targets))]
@@ -212,7 +212,7 @@ def scenario(e, cfg, built=None):
         idx = targets.index((ftype, rel))
         where = "nested" if rel.count("/") >= 2 else "top"
         e.fail(f"check() returned normally on {which} although {ftype} file {rel} was modified ({kind}); history={cfg['history']} "
-               f"algorithms={ALGS[cfg['algs']]}", dict(kind=f"undetected:{ftype}:{where}:{kind}:{'fresh' if fresh else 'same'}-handle",
+               f"algorithms={ALGS[cfg['algs']]}", dict(cfg=dict(cfg), kind=f"undetected:{ftype}:{where}:{kind}:{'fresh' if fresh else 'same'}-handle",
                                                        target=idx))
     finally:
         if own:
@@ -242,7 +242,8 @@ def run(tier, seed):
         if sig in seen:
             continue
         seen.add(sig)
-        cfg = next((x for x in cs if f"history={x['history']} " in c["msg"] and str(ALGS[x["algs"]]) in c["msg"]), cs[0])
+        cfg = (c.get("info") or {}).get("cfg") or next(
+            (x for x in cs if f"history={x['history']} " in c["msg"] and str(ALGS[x["algs"]]) in c["msg"]), cs[0])
         viols.append(Violation(sig, f"{c['msg']}", dict(model=c["model"], cfg=cfg)))
     return Result(
         property_id=PROP, engine="symx (finite fork)",
